@@ -21,7 +21,7 @@ import typing as t
 from hypothesis import strategies as st
 
 from . import codec
-from .tg import Node, Acc, Rej, Unspec, Verdict, combine, is_seq, is_map, node, Lit
+from .tg import Node, Acc, Rej, Unspec, Verdict, combine, is_seq, is_map, node, Lit, plainify
 
 STYLES = ('snake', 'scream', 'kebab', 'camel', 'pascal')
 
@@ -46,6 +46,29 @@ class Inst:
 
 class PostInitBoom(ValueError):
     pass
+
+
+def materialise(img: t.Any) -> t.Any:
+    """Reference image -> real Python objects (dataclass instances built with make_unchecked, ValueOrList, containers)."""
+    import collections
+    from .tg import VolImage
+    if isinstance(img, Inst):
+        cls = img.cls.pytype()
+        kw = {k: materialise(v) for (k, v) in img.values.items() if k in {f.name for f in img.cls.fields if f.init}}
+        return cls.make_unchecked(**kw)
+    if isinstance(img, VolImage):
+        from pane.types import ValueOrList
+        return ValueOrList(materialise(img.inner), img.is_val)
+    ty = type(img)
+    if ty in (list, tuple, set, frozenset):
+        return ty(materialise(x) for x in img)
+    if ty is collections.deque:
+        return collections.deque(materialise(x) for x in img)
+    if ty is collections.defaultdict:
+        return collections.defaultdict(None, {materialise(k): materialise(v) for (k, v) in img.items()})
+    if ty in (dict, collections.OrderedDict, collections.Counter):
+        return ty({materialise(k): materialise(v) for (k, v) in img.items()})
+    return img
 
 
 @dataclasses.dataclass
@@ -197,10 +220,9 @@ class ClsNode(Node):
         if k not in _DEFAULT_CACHE:
             data = f.default[1]
             obj = data
-            if not _has_structured(f.node):
-                r = f.node.ref(data)
-                if isinstance(r, Acc):
-                    obj = r.image
+            r = f.node.ref(data)
+            if isinstance(r, Acc):
+                obj = materialise(r.image)
             _DEFAULT_CACHE[k] = obj
         return _DEFAULT_CACHE[k]
 
@@ -418,6 +440,8 @@ class ClsNode(Node):
         for f in self.fields:
             if f.exclude and f.init and not f.has_default():
                 return False
+            if f.exclude and self.post is not None and self.post[1] == f.name:
+                return False   # a validation hook on a field that is not written out cannot be round-tripped
         return True
 
 
@@ -595,7 +619,16 @@ def class_specs(draw, field_types: st.SearchStrategy[t.Any], *, max_fields: int 
         want_default = need_default or draw(st.integers(0, 2)) == 2
         if want_default:
             nd = node(ty)
-            data = draw(nd.valid())
+            data = None
+            for _ in range(4):
+                data = plainify(draw(nd.valid()))
+                if isinstance(nd.ref(data), Acc):
+                    break
+            else:
+                # defaults are stored verbatim by pane, so a default must already be a typed value
+                (ty, data) = (('s', 'int'), 0)
+                fs['type'] = ty
+                nd = node(ty)
             mutable = isinstance(data, (list, dict)) or nd.kind.startswith(('seq', 'mapping', 'struct', 'dataclass', 'tagged', 'ValueOrList', 'ndarray'))
             fs['default'] = ['factory' if (mutable or draw(st.integers(0, 3)) == 3) else 'value', data]
             if not kw:
@@ -636,7 +669,11 @@ def tagged_specs(draw, field_types: st.SearchStrategy[t.Any]) -> t.Any:
         for (fname, ty) in shared:
             if draw(st.integers(0, 3)) > 0:
                 fs: t.Dict[str, t.Any] = {'name': fname, 'type': ty}
-                fs['default'] = ['factory', draw(node(ty).valid())]
+                data = plainify(draw(node(ty).valid()))
+                if not isinstance(node(ty).ref(data), Acc):
+                    (ty, data) = (('s', 'int'), 0)
+                    fs['type'] = ty
+                fs['default'] = ['factory', data]
                 if draw(st.booleans()):
                     fs.pop('default')
                     # a required field after the (defaulted) tag field must be keyword-only
